@@ -17,5 +17,5 @@ Extraction "model.ml"
   FedQueue.fq_init FedQueue.fq_step FedQueue.view_of FedQueue.local_of FedQueue.fq_idle FedQueue.msg_event_form
   RetTrie.rdb_all
   FedQueue.plain_sub FedRoute.fr_init FedRoute.fr_run FedRoute.fr_receive_all
-  C17O.c17_pub_ok C17O.plain_ok C17O.shared_ok C17O.retained_ok C17O.c17_recv_ok C17O.kf_shared_span C17O.kf_retained_empty C17O.pub_obs_of
+  C17O.c17_pub_ok C17O.plain_ok C17O.shared_ok C17O.retained_ok C17O.c17_recv_ok C17O.kf_shared_span C17O.pub_obs_of
   C16O.c16_ok C16O.c16_safety_ok C16O.fq_model_obs C16O.kf_hello_reply_lost C16O.kf_event_not_utf8.
